@@ -290,6 +290,62 @@ static long long execOp(World &w, const J &op, J &ev) {
     return o;
 }
 
+// C15: one save per fault, each in a forked child so that resource limits and privileges die with it.
+// kinds: none | fsize (RLIMIT_FSIZE = k, SIGXFSZ ignored) | missing_dir | is_dir | dev_full | readonly (as uid 65534)
+static void faultOne(World &w, long long o, const std::string &kind, long long k, const std::string &refPath, const J &ref, const std::string &label) {
+    std::string path = g_dir + "/fault.c3d";
+    if (kind == "missing_dir") path = g_dir + "/no/such/dir/fault.c3d";
+    else if (kind == "is_dir") path = g_dir;
+    else if (kind == "dev_full") path = "/dev/full";
+    else if (kind == "readonly") { path = g_dir + "/readonly.c3d"; unlink(path.c_str()); int fd = open(path.c_str(), O_CREAT | O_WRONLY, 0444); if (fd >= 0) close(fd); chmod(path.c_str(), 0444); chmod(g_dir.c_str(), 0755); }
+    else unlink(path.c_str());
+    fflush(stdout);
+    pid_t pid = fork();
+    if (pid == 0) {
+        signal(SIGXFSZ, SIG_IGN);
+        if (kind == "fsize") { struct rlimit rl; rl.rlim_cur = rl.rlim_max = static_cast<rlim_t>(k); setrlimit(RLIMIT_FSIZE, &rl); }
+        if (kind == "readonly" && getuid() == 0) { if (setgid(65534) != 0 || setuid(65534) != 0) _exit(40); }
+        int code = 0;
+        try { w.obj(o).write(path); }
+        catch (const std::ios_base::failure &) { code = 10; }
+        catch (const std::exception &) { code = 11; }
+        catch (...) { code = 12; }
+        _exit(code);
+    }
+    int st = 0; waitpid(pid, &st, 0);
+    std::string out = "crash";
+    if (WIFEXITED(st)) { int c = WEXITSTATUS(st); out = c == 0 ? "ok" : c == 10 ? "ios_failure" : c == 11 ? "other_std" : c == 12 ? "non_std" : c == 40 ? "skipped" : "crash"; }
+    long long disk_len = -1; int prefix_ok = 1;
+    if (kind == "none" || kind == "fsize" || kind == "readonly") {
+        bool ok; J b = fileBytes(path, ok);
+        if (ok) { disk_len = static_cast<long long>(b.a.size());
+                  for (size_t i = 0; i < b.a.size(); ++i) if (i >= ref.a.size() || b.a[i].i != ref.a[i].i) { prefix_ok = 0; break; } }
+    }
+    if (kind == "readonly") { chmod(path.c_str(), 0644); unlink(path.c_str()); }
+    J ev = J::obj().set("e", "SaveFault").set("obj", label).set("kind", kind).set("k", J(k)).set("out", out)
+                   .set("disk_len", J(disk_len)).set("ref_len", J(ref.a.size())).set("prefix_ok", J(prefix_ok));
+    std::string line; ev.dump(line); line += '\n'; fwrite(line.data(), 1, line.size(), stdout);
+    (void)refPath;
+}
+static void faultSweep(World &w, const J &op) {
+    long long o = op.geti("o", 1);
+    std::string label = op.gets("label", "obj");
+    std::string refPath = g_dir + "/ref.c3d";
+    unlink(refPath.c_str());
+    w.obj(o).write(refPath);
+    bool ok; J ref = fileBytes(refPath, ok);
+    const J &kinds = op.at("kinds");
+    for (size_t i = 0; i < kinds.a.size(); ++i) faultOne(w, o, kinds.a[i].s, -1, refPath, ref, label);
+    if (op.has("ks")) {
+        const J &ks = op.at("ks");
+        if (ks.t == J::STR && ks.s == "all") { for (size_t k = 0; k <= ref.a.size() + 1; ++k) faultOne(w, o, "fsize", static_cast<long long>(k), refPath, ref, label); }
+        else for (size_t i = 0; i < ks.a.size(); ++i) {
+            long long k = ks.a[i].i; if (k < 0) k += static_cast<long long>(ref.a.size());      // negative: counted from the end
+            if (k >= 0) faultOne(w, o, "fsize", k, refPath, ref, label);
+        }
+    }
+}
+
 static int modeRun() {
     World w;
     std::string line;
@@ -297,6 +353,7 @@ static int modeRun() {
     while (std::getline(std::cin, line)) {
         if (line.empty()) continue;
         J op = jparse(line);
+        if (op.at("op").s == "FaultSweep") { faultSweep(w, op); continue; }
         J ev = J::obj();
         ev.set("seq", J(++seq)).set("e", op.at("op"));
         long long o = execOp(w, op, ev);
